@@ -510,8 +510,12 @@ def eligible_fragments(path):
         stores = any(isinstance(c, ast.Name) and not isinstance(c.ctx, ast.Load)
                      for c in ast.walk(n))
         rawself = any(isinstance(c, ast.Name) and c.id == "self" for c in ast.walk(n))
-        topbool = isinstance(n, ast.BoolOp) or (isinstance(n, ast.UnaryOp)
-                                                and isinstance(n.op, ast.Not))
+        # tops that the bare (marker-less) contexts cannot carry: and/or/not are proposition
+        # operators in requirements, `require [1] ...` is the documented soft-requirement syntax,
+        # and the node replacing `X @ Y` has no location of its own (reported at file level)
+        topbool = (isinstance(n, ast.BoolOp) or isinstance(n, ast.List)
+                   or (isinstance(n, ast.UnaryOp) and isinstance(n.op, ast.Not))
+                   or (isinstance(n, ast.BinOp) and isinstance(n.op, ast.MatMult)))
         simple = all(isinstance(c, (ast.Name, ast.Constant, ast.Attribute, ast.expr_context))
                      for c in ast.walk(n))
         trigger = D.has_rewrite_trigger(n)
@@ -586,8 +590,8 @@ def judge_fragment(case):
         ctx = "param"  # behaviors rewrite their local variables: keep such fragments outside
     if ctx == "default" and rawself:
         ctx = "with"  # a raw `self` is documented to be illegal in a default value
-    if ctx == "require-bare" and topbool:
-        ctx = "require"  # and/or/not at the top of a requirement are proposition operators
+    if ctx.endswith("-bare") and topbool:
+        ctx = ctx[:-5]  # use the marker form of the same context
     out.cls("frag:" + ctx, "frag-top:" + tname)
     src, line, col, marked = embed(ctx, text, case["pad"])
     try:
